@@ -47,4 +47,30 @@ Section Examples.
   Lemma ex_lstsq n p t (X : 'M[F]_(n, t)) (y : 'M[F]_(n, p)) (Yr : 'M[F]_(t, p)) :
     lstsq_ok X y (1%:M : 'M[F]_t) Yr Yr Yr.
   Proof. by apply/lstsq_okP; rewrite trmx1 !mul1mx. Qed.
+
+  (* spectral hypotheses: M = diag(2, 1), eigenbases I and diag(1, -1), k = 1 *)
+  Definition exlam : 'cV[F]_2 := \col_i (if i == ord0 then 2%:R else 1).
+  Definition exV' : 'M[F]_2 := diag_mx (\row_i (if i == ord0 then 1 else -1)).
+  Lemma ex_spectral :
+    let M := diag_mx exlam^T in
+    [/\ M^T = M, (1%:M : 'M[F]_2)^T *m 1%:M = 1%:M, exV'^T *m exV' = 1%:M,
+        M *m 1%:M = 1%:M *m diag_mx exlam^T & M *m exV' = exV' *m diag_mx exlam^T]
+    /\ (forall i j : 'I_2, (i < 1)%N -> (1 <= j)%N -> exlam j ord0 < exlam i ord0)
+    /\ exV' != 1%:M.
+  Proof.
+    move=> M; split; [split|split].
+    - by rewrite /M tr_diag_mx.
+    - by rewrite trmx1 mulmx1.
+    - rewrite /exV' tr_diag_mx mulmx_diag -[RHS]diag_const_mx; congr diag_mx.
+      by apply/rowP => i; rewrite !mxE; case: ifP => _; rewrite ?mulr1 ?mulrNN ?mulr1.
+    - by rewrite mulmx1 mul1mx.
+    - rewrite /M /exV' !mulmx_diag; congr diag_mx.
+      by apply/rowP => i; rewrite !mxE mulrC.
+    - move=> i j; rewrite ltnS leqn0 => /eqP i0 j1.
+      have -> : i = ord0 by apply: val_inj.
+      rewrite !mxE eqxx; case: eqP => [E|_]; first by rewrite E in j1.
+      by rewrite ltr1n.
+    - apply/eqP => /matrixP/(_ ord_max ord_max); rewrite !mxE /= => /eqP.
+      by rewrite mulr1n eq_sym -subr_eq0 opprK -mulr2n pnatr_eq0.
+  Qed.
 End Examples.
